@@ -15,9 +15,9 @@ typedef int UnRepOpts;
 //@ struct src/xercesc/util/XMLUTF16Transcoder.hpp XMLUTF16Transcoder only=auto
 
 /* ghost index: harness-chosen, in no assigns clause */
-XMLSize_t G;
+XMLSize_t G, GB;
+#define GBI ((GB < maxBytes) ? GB : 0)
 #define GIDX(k) ((G < NMAX) ? 2 * G + (k) : 0)
-#define BYTES(p) ((XMLByte *)(p))
 
 /*@extract src/xercesc/util/BitOps.hpp BitOps::swapBytes
 inclass
@@ -29,7 +29,7 @@ as BitOps_swapBytes
 /*@extract src/xercesc/util/XMLUTF16Transcoder.cpp XMLUTF16Transcoder::transcodeTo
 sub \bUTF16Ch\(\*srcPtr\+\+\) => ((UTF16Ch)(*srcPtr++))
 contract
-__CPROVER_requires(G < NMAX && srcCount <= NMAX && maxBytes <= 2 * NMAX + 1 && !verif_thrown)
+__CPROVER_requires(G < NMAX && GB <= 2 * NMAX && srcCount <= NMAX && maxBytes <= 2 * NMAX + 1 && !verif_thrown)
 __CPROVER_requires(__CPROVER_r_ok(srcData, srcCount * sizeof(XMLCh)))
 __CPROVER_requires(__CPROVER_w_ok(toFill, maxBytes))
 __CPROVER_requires(__CPROVER_w_ok(charsEaten_p, sizeof(XMLSize_t)))
@@ -43,17 +43,15 @@ __CPROVER_ensures(*charsEaten_p == ((srcCount < maxBytes / 2) ? srcCount : maxBy
 /* C05: output bytes 2G, 2G+1 spell source unit G in the byte order of the encoding scheme; every 16-bit value */
 __CPROVER_ensures((G < *charsEaten_p && fSwapped) ==> (toFill[GIDX(0)] == (XMLByte)(srcData[G] >> 8) && toFill[GIDX(1)] == (XMLByte)(srcData[G] & 0xFF)))
 __CPROVER_ensures((G < *charsEaten_p && !fSwapped) ==> (toFill[GIDX(1)] == (XMLByte)(srcData[G] >> 8) && toFill[GIDX(0)] == (XMLByte)(srcData[G] & 0xFF)))
-/* frame inside the buffer: bytes at and beyond the return value (= 2 * charsEaten, ensured above) are untouched */
-__CPROVER_ensures((G >= *charsEaten_p && 2 * G < maxBytes) ==> toFill[GIDX(0)] == __CPROVER_old(toFill[(2 * G < maxBytes) ? 2 * G : 0]))
-__CPROVER_ensures((G >= *charsEaten_p && 2 * G + 1 < maxBytes) ==> toFill[GIDX(1)] == __CPROVER_old(toFill[(2 * G + 1 < maxBytes) ? 2 * G + 1 : 0]))
+/* frame inside the buffer: bytes at and beyond the return value are untouched (byte ghost index GB) */
+__CPROVER_ensures((GB >= __CPROVER_return_value && GB < maxBytes) ==> toFill[GBI] == __CPROVER_old(toFill[GBI]))
 loop 1
 __CPROVER_assigns(index, outPtr, srcPtr, __CPROVER_object_upto(toFill, maxBytes))
 __CPROVER_loop_invariant(index <= countToDo)
 __CPROVER_loop_invariant(__CPROVER_same_object(outPtr, toFill) && __CPROVER_POINTER_OFFSET(outPtr) == __CPROVER_POINTER_OFFSET(toFill) + 2 * index)
 __CPROVER_loop_invariant(__CPROVER_same_object(srcPtr, srcData) && __CPROVER_POINTER_OFFSET(srcPtr) == __CPROVER_POINTER_OFFSET(srcData) + 2 * index)
 __CPROVER_loop_invariant((G < index) ==> (toFill[GIDX(0)] == (XMLByte)(srcData[G] >> 8) && toFill[GIDX(1)] == (XMLByte)(srcData[G] & 0xFF)))
-__CPROVER_loop_invariant((G >= index && 2 * G < maxBytes) ==> toFill[GIDX(0)] == __CPROVER_loop_entry(toFill[(2 * G < maxBytes) ? 2 * G : 0]))
-__CPROVER_loop_invariant((G >= index && 2 * G + 1 < maxBytes) ==> toFill[GIDX(1)] == __CPROVER_loop_entry(toFill[(2 * G + 1 < maxBytes) ? 2 * G + 1 : 0]))
+__CPROVER_loop_invariant((GB >= 2 * index && GB < maxBytes) ==> toFill[GBI] == __CPROVER_loop_entry(toFill[GBI]))
 __CPROVER_decreases(countToDo - index)
 loop 2
 __CPROVER_assigns(index, outPtr, srcPtr, __CPROVER_object_upto(toFill, maxBytes))
@@ -61,8 +59,7 @@ __CPROVER_loop_invariant(index <= countToDo)
 __CPROVER_loop_invariant(__CPROVER_same_object(outPtr, toFill) && __CPROVER_POINTER_OFFSET(outPtr) == __CPROVER_POINTER_OFFSET(toFill) + 2 * index)
 __CPROVER_loop_invariant(__CPROVER_same_object(srcPtr, srcData) && __CPROVER_POINTER_OFFSET(srcPtr) == __CPROVER_POINTER_OFFSET(srcData) + 2 * index)
 __CPROVER_loop_invariant((G < index) ==> (toFill[GIDX(1)] == (XMLByte)(srcData[G] >> 8) && toFill[GIDX(0)] == (XMLByte)(srcData[G] & 0xFF)))
-__CPROVER_loop_invariant((G >= index && 2 * G < maxBytes) ==> toFill[GIDX(0)] == __CPROVER_loop_entry(toFill[(2 * G < maxBytes) ? 2 * G : 0]))
-__CPROVER_loop_invariant((G >= index && 2 * G + 1 < maxBytes) ==> toFill[GIDX(1)] == __CPROVER_loop_entry(toFill[(2 * G + 1 < maxBytes) ? 2 * G + 1 : 0]))
+__CPROVER_loop_invariant((GB >= 2 * index && GB < maxBytes) ==> toFill[GBI] == __CPROVER_loop_entry(toFill[GBI]))
 __CPROVER_decreases(countToDo - index)
 @*/
 
@@ -73,7 +70,7 @@ void h_utf16_to(void)
 {
   XMLSize_t n, m, eaten = 0;
   int opt;
-  VERIF_INPUT(n); VERIF_INPUT(m); VERIF_INPUT(opt); VERIF_INPUT(G); VERIF_INPUT(SRC); VERIF_INPUT(OUT); VERIF_INPUT(SELF);
+  VERIF_INPUT(n); VERIF_INPUT(m); VERIF_INPUT(opt); VERIF_INPUT(G); VERIF_INPUT(GB); VERIF_INPUT(SRC); VERIF_INPUT(OUT); VERIF_INPUT(SELF);
   VERIF_ASSUME(n <= NMAX && m <= 2 * NMAX + 1);
   verif_thrown = 0;
   /* end-aligned: any access beyond srcCount / maxBytes leaves the object */
